@@ -202,43 +202,50 @@ func (db *DB) loadMergeFiles() (uint32, error) {
 		return 0, nil
 	}
 
-	defer func() {
-		// 加载完成后删除 merge 目录
-		_ = os.RemoveAll(mergePath)
-	}()
-
-	// 处理经过重写的数据文件, 处理中途失败需返回错误
-	for fileID := uint32(0); fileID < mergeID; fileID++ {
-		// 删除原数据文件
-		destName := datafile.GetFileName(db.options.DirPath, fileID, datafile.DataFileSuffix)
-		var exist bool
-		if _, err := os.Stat(destName); err == nil {
-			if err = os.Remove(destName); err != nil {
+	// 阶段一: 删除参与 merge 的原数据文件, 其有效数据已全部包含在重写文件中
+	// 仅当首个重写文件仍位于 merge 目录中 (即尚未开始移动) 时执行:
+	// 重写文件按 id 升序移动, 首个文件移走后数据目录中 id 较小的文件可能已是重写文件,
+	// 中断后重试时不得再将其删除
+	firstMergedFile := datafile.GetFileName(mergePath, 0, datafile.DataFileSuffix)
+	if _, err := os.Stat(firstMergedFile); err == nil {
+		for fileID := uint32(0); fileID < mergeID; fileID++ {
+			destName := datafile.GetFileName(db.options.DirPath, fileID, datafile.DataFileSuffix)
+			if err := os.Remove(destName); err != nil && !os.IsNotExist(err) {
 				return 0, err
 			}
-			exist = true
 		}
-		// 将重写的数据文件移动到数据目录中
+	}
+
+	// 阶段二: 按 id 升序将重写的数据文件移动到数据目录中, 处理中途失败需返回错误
+	for fileID := uint32(0); fileID < mergeID; fileID++ {
 		srcFile := datafile.GetFileName(mergePath, fileID, datafile.DataFileSuffix)
 		if _, err := os.Stat(srcFile); err != nil {
-			// 如果原数据文件不存在, 则允许重写文件不存在
-			if !exist && os.IsNotExist(err) {
+			// 重写文件数量可能少于原数据文件, 或已在此前被中断的加载过程中移动
+			if os.IsNotExist(err) {
 				continue
 			}
 			return 0, err
 		}
+		destName := datafile.GetFileName(db.options.DirPath, fileID, datafile.DataFileSuffix)
 		if err := os.Rename(srcFile, destName); err != nil {
 			return 0, err
 		}
 	}
 
 	// 移动对应的 hint 文件, 移动失败应当返回错误
+	// hint 文件不存在说明已在此前被中断的加载过程中移动
 	srcHintFile := datafile.GetFileName(mergePath, 0, datafile.HintFileSuffix)
 	destHintFile := datafile.GetFileName(db.options.DirPath, 0, datafile.HintFileSuffix)
-	if _, err := os.Stat(srcHintFile); err != nil {
+	if _, err := os.Stat(srcHintFile); err == nil {
+		if err := os.Rename(srcHintFile, destHintFile); err != nil {
+			return 0, err
+		}
+	} else if !os.IsNotExist(err) {
 		return 0, err
 	}
-	if err := os.Rename(srcHintFile, destHintFile); err != nil {
+
+	// 全部加载完成后才允许删除 merge 目录, 中途失败时保留以便下次重试
+	if err := os.RemoveAll(mergePath); err != nil {
 		return 0, err
 	}
 
